@@ -1,5 +1,6 @@
 import YaqsModel.Basic.Parse
 import YaqsModel.Model.Verdict
+import YaqsModel.Model.MpoUpdate
 /-! line protocol of the C04 model
 
   verdict <t> <n> <f>            → 1 | 0                 (`MPO.check_if_identity`, repaired code)
@@ -11,6 +12,24 @@ import YaqsModel.Model.Verdict
                                    `z<c>:<m>:<id,id,…>` zone of circuit c at sites (m, m+1); then `done`,
                                    or `assert` (AssertionError) / `fuel`
   gates: one token per instruction in circuit order, `q` or `q0,q1`; `-` for "no gates".
+
+  requests of the tensor model `Model/MpoUpdate.lean` (extension; handled by `MpoUpdDrv.handle`):
+  complex entries travel as pairs `re im` of exact rationals, arrays row-major;
+  <site>  = `d dl dr e…`        an MPO tensor of shape (d, d, dl, dr)
+  <msite> = `p dl dr e…`        an MPS tensor of shape (p, dl, dr)
+  <gate>  = `isId inter sites e…`  `sites` = `q` | `q0,q1` | `-`; entries: `gate.matrix` (d×d) when inter = 1,
+                                   `gate.tensor` (d×d×d×d) when inter = 2, none otherwise
+  thetaof | <site A> | <site B>                      → `d d Dl d d Dr` + entries of `update_mpo`'s merged theta
+  applygate d Dl Dr s0 s1 conj | <gate> | theta      → entries of `apply_gate(gate, theta, s0, s1, conjugate=conj)` | `assert`
+  zone d Dl Dr n conj k | <gate>×k | theta           → entries after the loop of `apply_temporal_zone` | `assert`
+  update d n kf thr k1 k2 | <site A> | <site B> | <gate>×k1 | <gate>×k2 | U | s | Vh
+        → `tm rows cols e… | keep k | <left tensor> | <right tensor>` of `update_mpo` (the matrix handed to the SVD, then
+          `decompose_theta` on the factors `U` (rows×kf), `s` (kf rationals), `Vh` (kf×cols) the SVD returned) | `assert`
+  decomp d Dl Dr kf thr | theta | U | s | Vh         → the same for `decompose_theta(theta, thr)` alone
+  lrpair top|bottom | G0 | G1 | W0 | W1              → shape + entries of the reshaped einsum of `apply_long_range_layer`
+  lrhang top|bottom | G | W | Wprev                  → shape + entries of the hanging-tensor theta
+  sp n | <msite>×n | <msite>×n                       → `re im` of `MPS.scalar_product` | `assert`
+  idtrace f | <site>×n                               → `tr re im dec b` of `MPO.check_if_identity(f)`
 -/
 open Yaqs Yaqs.Verdict
 
@@ -31,6 +50,203 @@ def showRes : Res → String
   | .done evs => " ".intercalate (evs.map showEv ++ ["done"])
   | .outOfFuel => "fuel"
   | .assertFail => "assert"
+
+namespace MpoUpdDrv
+open Yaqs.MpoUpdate Yaqs.MpoConv
+
+def parseC? : List String → Option (List CRat)
+  | [] => some []
+  | [_] => none
+  | r :: i :: rest => do
+    let re ← parseRat? r
+    let im ← parseRat? i
+    let tl ← parseC? rest
+    pure (⟨re, im⟩ :: tl)
+
+def parseArr? (n : Nat) (ws : List String) : Option (Array CRat) :=
+  match parseC? ws with
+  | some l => if l.length = n then some l.toArray else none
+  | none => none
+
+def showC (z : CRat) : String := showRat z.re ++ " " ++ showRat z.im
+def showArr (a : Array CRat) : String := joinWith " " (a.toList.map showC)
+
+def parseSite? : List String → Option (Site CRat)
+  | d :: dl :: dr :: es => do
+    let d ← d.toNat?
+    let dl ← dl.toNat?
+    let dr ← dr.toNat?
+    let a ← parseArr? (d * d * dl * dr) es
+    pure ⟨d, dl, dr, ofTab4 d dl dr a⟩
+  | _ => none
+
+def parseMSite? : List String → Option (MpsSite CRat)
+  | p :: dl :: dr :: es => do
+    let p ← p.toNat?
+    let dl ← dl.toNat?
+    let dr ← dr.toNat?
+    let a ← parseArr? (p * dl * dr) es
+    pure ⟨p, dl, dr, fun i l r => a.getD ((i * dl + l) * dr + r) 0⟩
+  | _ => none
+
+def parseSites? (s : String) : Option (List Nat) :=
+  if s = "-" then some [] else parseAll? (fun w => w.toNat?) (s.splitOn ",")
+
+def parseGate? (d : Nat) : List String → Option (Gate CRat)
+  | isId :: inter :: sites :: es => do
+    let isId ← isId.toNat?
+    let inter ← inter.toNat?
+    let sites ← parseSites? sites
+    if inter = 1 then
+      let a ← parseArr? (d * d) es
+      pure ⟨isId != 0, inter, sites, fun i j => a.getD (i * d + j) 0, fun _ _ _ _ => 0⟩
+    else if inter = 2 then
+      let a ← parseArr? (d * d * d * d) es
+      pure ⟨isId != 0, inter, sites, fun _ _ => 0, ofTab4 d d d a⟩
+    else if es.isEmpty then pure ⟨isId != 0, inter, sites, fun _ _ => 0, fun _ _ _ _ => 0⟩
+    else none
+  | _ => none
+
+def allParts? {α} (f : List String → Option α) : List (List String) → Option (List α)
+  | [] => some []
+  | x :: xs => do
+    let a ← f x
+    let as ← allParts? f xs
+    pure (a :: as)
+
+def showSite (t : Site CRat) : String :=
+  s!"{t.d} {t.dl} {t.dr} " ++ showArr (tab4 t.d t.d t.dl t.dr t.e)
+
+/-- `decompose_theta` on the SVD factors: `keep k | left | right` -/
+def showDecomp (d Dl Dr kf : Nat) (thr : Rat) (uw sw vw : List String) : Option String := do
+  let rows := d * d * Dl
+  let cols := d * d * Dr
+  let ua ← parseArr? (rows * kf) uw
+  let sl ← parseAll? parseRat? sw
+  let va ← parseArr? (kf * cols) vw
+  if sl.length ≠ kf then none
+  else
+    let sa := sl.toArray
+    let dec : Svd CRat := ⟨fun i p => ua.getD (i * kf + p) 0, sl, fun p => CRat.ofRat (sa.getD p 0),
+      fun p j => va.getD (p * cols + j) 0⟩
+    let r := decomposeTheta d Dl Dr dec thr
+    pure (s!"keep {r.1.dr} | " ++ showSite r.1 ++ " | " ++ showSite r.2)
+
+def showTm (d Dl Dr : Nat) (θ : T6 CRat) : String :=
+  let rows := d * d * Dl
+  let cols := d * d * Dr
+  let tm := thetaMatrix d Dl Dr θ
+  s!"tm {rows} {cols} " ++ showArr (Array.ofFn (n := rows * cols) fun k => tm (k.val / cols) (k.val % cols))
+
+def handle (parts : List (List String)) : String :=
+  match parts with
+  | [["thetaof"], aw, bw] =>
+    match parseSite? aw, parseSite? bw with
+    | some A, some B =>
+      if A.d ≠ B.d ∨ A.dr ≠ B.dl then "bad-op"
+      else s!"{A.d} {A.d} {A.dl} {A.d} {A.d} {B.dr} " ++ showArr (tab6 A.d A.d A.dl A.d A.d B.dr (thetaOf A B))
+    | _, _ => "bad-op"
+  | [["applygate", d, dl, dr, s0, s1, cj], gw, tw] =>
+    match d.toNat?, dl.toNat?, dr.toNat?, s0.toNat?, s1.toNat?, cj.toNat? with
+    | some d, some dl, some dr, some s0, some s1, some cj =>
+      match parseGate? d gw, parseArr? (d * d * dl * d * d * dr) tw with
+      | some g, some ta =>
+        match applyGate CRat.conj d g (ofTab6 d dl d d dr ta) s0 s1 (cj != 0) with
+        | some θ => showArr (tab6 d d dl d d dr θ)
+        | none => "assert"
+      | _, _ => "bad-op"
+    | _, _, _, _, _, _ => "bad-op"
+  | ["zone", d, dl, dr, n, cj, k] :: rest =>
+    match d.toNat?, dl.toNat?, dr.toNat?, n.toNat?, cj.toNat?, k.toNat? with
+    | some d, some dl, some dr, n?, some cj, some k =>
+      match n? with
+      | some n =>
+        if rest.length ≠ k + 1 then "bad-op"
+        else
+          match allParts? (parseGate? d) (rest.take k), parseArr? (d * d * dl * d * d * dr) (rest.getD k []) with
+          | some gs, some ta =>
+            match zoneApplyM CRat.conj d dl dr n (cj != 0) gs ta with
+            | some a => showArr a
+            | none => "assert"
+          | _, _ => "bad-op"
+      | none => "bad-op"
+    | _, _, _, _, _, _ => "bad-op"
+  | ["update", d, n, kf, thr, k1, k2] :: aw :: bw :: rest =>
+    match d.toNat?, n.toNat?, kf.toNat?, parseRat? thr, k1.toNat?, k2.toNat? with
+    | some d, some n, some kf, some thr, some k1, some k2 =>
+      if rest.length ≠ k1 + k2 + 3 then "bad-op"
+      else
+        match parseSite? aw, parseSite? bw, allParts? (parseGate? d) (rest.take k1),
+            allParts? (parseGate? d) ((rest.drop k1).take k2) with
+        | some A, some B, some gs1, some gs2 =>
+          if A.d ≠ d ∨ B.d ≠ d ∨ A.dr ≠ B.dl then "bad-op"
+          else
+            match updateThetaM CRat.conj d n A B gs1 gs2 with
+            | none => "assert"
+            | some a =>
+              let tail := rest.drop (k1 + k2)
+              match showDecomp d A.dl B.dr kf thr (tail.getD 0 []) (tail.getD 1 []) (tail.getD 2 []) with
+              | some s => showTm d A.dl B.dr (ofTab6 d A.dl d d B.dr a) ++ " | " ++ s
+              | none => "bad-op"
+        | _, _, _, _ => "bad-op"
+    | _, _, _, _, _, _ => "bad-op"
+  | [["decomp", d, dl, dr, kf, thr], tw, uw, sw, vw] =>
+    match d.toNat?, dl.toNat?, dr.toNat?, kf.toNat?, parseRat? thr with
+    | some d, some dl, some dr, some kf, some thr =>
+      match parseArr? (d * d * dl * d * d * dr) tw, showDecomp d dl dr kf thr uw sw vw with
+      | some ta, some s => showTm d dl dr (ofTab6 d dl d d dr ta) ++ " | " ++ s
+      | _, _ => "bad-op"
+    | _, _, _, _, _ => "bad-op"
+  | [["lrpair", which], g0, g1, w0, w1] =>
+    match parseSite? g0, parseSite? g1, parseSite? w0, parseSite? w1 with
+    | some G0, some G1, some W0, some W1 =>
+      if G0.dr ≠ G1.dl ∨ W0.dr ≠ W1.dl ∨ G0.d ≠ W0.d ∨ G1.d ≠ W1.d ∨ W0.d ≠ W1.d then "bad-op"
+      else
+        let d := W0.d
+        if which = "top" then
+          s!"{d} {d} {G0.dl * W0.dl} {d} {d} {G1.dr * W1.dr} " ++
+            showArr (tab6 d d (G0.dl * W0.dl) d d (G1.dr * W1.dr) (lrPairTop G0 G1 W0 W1))
+        else if which = "bottom" then
+          s!"{d} {d} {W0.dl * G0.dl} {d} {d} {W1.dr * G1.dr} " ++
+            showArr (tab6 d d (W0.dl * G0.dl) d d (W1.dr * G1.dr) (lrPairBottom G0 G1 W0 W1))
+        else "bad-op"
+    | _, _, _, _ => "bad-op"
+  | [["lrhang", which], gw, ww, pw] =>
+    match parseSite? gw, parseSite? ww, parseSite? pw with
+    | some G, some W, some P =>
+      if G.d ≠ W.d ∨ P.d ≠ W.d then "bad-op"
+      else
+        let d := W.d
+        let H? : Option (Site CRat) :=
+          if which = "top" then some (lrHangTop G W) else if which = "bottom" then some (lrHangBottom G W) else none
+        match H? with
+        | some H =>
+          if P.dr ≠ H.dl then "bad-op"
+          else s!"{d} {d} {P.dl} {d} {d} {H.dr} " ++ showArr (tab6 d d P.dl d d H.dr (lrHangTheta P H))
+        | none => "bad-op"
+    | _, _, _ => "bad-op"
+  | ["sp", n] :: rest =>
+    match n.toNat? with
+    | some n =>
+      if rest.length ≠ 2 * n then "bad-op"
+      else
+        match allParts? parseMSite? (rest.take n), allParts? parseMSite? (rest.drop n) with
+        | some as, some bs =>
+          match scalarProduct CRat.conj as bs with
+          | some z => showC z
+          | none => "assert"
+        | _, _ => "bad-op"
+    | none => "bad-op"
+  | ["idtrace", f] :: rest =>
+    match parseRat? f, allParts? parseSite? rest with
+    | some f, some ts =>
+      match identityTrace CRat.conj ts with
+      | some z => "tr " ++ showC z ++ " dec " ++ showBool (identityDecision z ts.length f)
+      | none => "assert"
+    | _, _ => "bad-op"
+  | _ => "bad-op"
+
+end MpoUpdDrv
 
 def handle (line : String) : String :=
   match splitBar (words line) with
@@ -57,6 +273,6 @@ def handle (line : String) : String :=
     match n.toNat?, parseDag? g1, parseDag? g2 with
     | some n, some c1, some c2 => showRes (iterate n c1 c2 (c1.length + c2.length))
     | _, _, _ => "bad-op"
-  | _ => "bad-op"
+  | parts => MpoUpdDrv.handle parts
 
 def main : IO Unit := do lineLoop (← IO.getStdin) handle
